@@ -1590,3 +1590,12 @@ mod tests {
         assert!(QrPayload::parse("MT:00", &mut buf).is_err());
     }
 }
+
+// Verification hook. Inert unless built by the Kani compiler (`cargo kani`, `cargo kani playback`):
+// the harness text lives outside this repository, in `$RS_MATTER_VERIF_DIR`.
+#[cfg(kani)]
+mod verif_kani {
+    #[allow(unused_imports)]
+    use super::*;
+    include!(concat!(env!("RS_MATTER_VERIF_DIR"), "/pairing__qr.rs"));
+}
